@@ -1,2 +1,3 @@
 //! Generators: proptest strategies and exhaustive enumerators.
 pub mod enumstr;
+pub mod lit;
